@@ -1369,6 +1369,9 @@ insert_list:
         SCOPED_LOCK(rq.current->lock);
         assert(!AtomicRunQ(rq).single());
         auto sw = AtomicRunQ(rq).remove_current(states::SLEEPING);
+        // a reason parked by a thread_interrupt() that found this thread READY
+        // (not sleeping) cut no sleep short: do not deliver it to this sleep
+        sw.from->error_number = 0;
         if (waitq) {
             waitq->push_back(sw.from);
             sw.from->waitq = waitq;
